@@ -66,6 +66,28 @@ class _Env(object):
       def value(self):
         return 2
     self.Base, self.Sub = Base, Sub
+    self.constructed = []
+
+    class TriggerPlug(base_plugs.BasePlug):
+      # needed by the start trigger of SOME runs only; no phase of any test declares it
+      def __init__(self_):
+        env.constructed.append('TriggerPlug')
+
+    class Counted(Sub):
+      def __init__(self_):
+        env.constructed.append('Sub')
+    self.Sub = Sub = Counted
+    self.TriggerPlug = TriggerPlug
+
+    def trigger(test, tp):
+      test.dut_id = 'dut-c11'
+    self.trigger = htf.plug(tp=TriggerPlug)(trigger)
+    from openhtf.util import configuration
+    try:
+      configuration.CONF.declare('c11_settings', 'container-valued configuration', default_value={'token': ['secret']})
+    except Exception:  # pylint: disable=broad-except
+      pass      # declared by an earlier case in this process
+    self.conf = configuration.CONF
     self.Diag = diagnoses_lib.DiagResultEnum('C11R', {'A': 'a', 'B': 'b'})
 
     def diag_fn(phase_record):
@@ -90,6 +112,14 @@ class _Env(object):
       elif owner[0] is not rec:
         env.facts.append('X:state-dict-shared-between-runs')
       test.state[tag] = x
+      # the run's record is the run's: scrubbing a value in ITS copy of the configuration snapshot must stay there
+      cfgsnap = test.test_record.metadata.get('config') or {}
+      tok = (cfgsnap.get('c11_settings') or {}).get('token')
+      if tok is not None:
+        if tok != ['secret'] and tok != ['secret', 'seen']:
+          env.facts.append('X:configuration-snapshot-of-this-run-not-pristine')
+        if tok == ['secret']:
+          tok.append('seen')
       test.measurements.m1 = x
       test.measurements.m2 = pl.value()
       test.attach('att_' + tag, b'data%d' % x)
@@ -305,16 +335,31 @@ def _run_s(case):
         recs = []
         t.add_output_callbacks(recs.append)
         t.configure(name='c11')
-        first = None
+        firsts = {}
         for k in range(step[2]):
           del recs[:]
-          t.execute()
+          del env.constructed[:]
+          before_types = sorted(c.__name__ for c in t.descriptor.plug_types)
+          # some runs are started by a trigger phase that needs a plug of its own
+          with_trigger = (step[1] + k) % 3 == 0
+          if with_trigger:
+            t.execute(test_start=env.trigger)
+          else:
+            t.execute()
+          if env.conf.c11_settings != {'token': ['secret']}:
+            facts.append('X:global-configuration-changed-by-a-run')
+            env.conf.c11_settings['token'][:] = ['secret']
+          if sorted(c.__name__ for c in t.descriptor.plug_types) != before_types:
+            facts.append('X:plug-types-of-the-descriptor-changed-by-a-run')
+          if not with_trigger and 'TriggerPlug' in env.constructed:
+            facts.append('X:run-constructed-a-plug-only-an-earlier-run-needed')
           if not recs:
             facts.append('X:no-record')
             break
           c = json.dumps(_canon_record(recs[0]), sort_keys=True, default=str)
+          first = firsts.get(with_trigger)
           if first is None:
-            first = c
+            firsts[with_trigger] = c
           elif c != first:
             facts.append('X:repeated-run-gives-a-different-record')
           if recs[0].outcome.name not in ('PASS', 'FAIL'):   # FAIL: a measurement added to a derived phase is never set
